@@ -9,9 +9,9 @@ from . import common
 from .model import runs_of
 
 GFLAV = {
-    0: dict(name='int-T-2', ids=[0, 1, 2, 3, 4], T0=-2),      # with 4 instants: -2..1 — two negative ids, 0 interior
-    1: dict(name='str-T8', ids=['ab', 'a', 'b', 'abc', 'c'], T0=8),   # 8, 9, 10: ids change their number of digits; 'a' is a prefix of 'ab'
-    2: dict(name='int-prefix-THUGE', ids=[10, 1, 100, 11, 2], T0=2 ** 60),   # str(1) is a prefix of str(10); instants beyond 2**53 (and the small-int cache)
+    0: dict(name='int-T-2', ids=[0, 1, 2, 3, 4, 5], T0=-2),      # with 4 instants: -2..1 — two negative ids, 0 interior
+    1: dict(name='str-T8', ids=['ab', 'a', 'b', 'abc', 'c', 'd'], T0=8),   # 8, 9, 10: ids change their number of digits; 'a' is a prefix of 'ab'
+    2: dict(name='int-prefix-THUGE', ids=[10, 1, 100, 11, 2, 20], T0=2 ** 60),   # str(1) is a prefix of str(10); instants beyond 2**53 (and the small-int cache)
 }
 
 
@@ -21,7 +21,7 @@ def gconf(cls, flavour, n_nodes, n_times, k, loops=False):
 
 def gconf_name(c):
     return '%s/%s/n%d/T%d/k%d%s%s' % (c['cls'], GFLAV[c['flavour']]['name'], c['n'], c['nt'], c['k'], '/loops' if c['loops'] else '',
-                                    '/one-contact-per-instant' if c.get('seq') else '')
+                                    '/one-contact-per-instant' if c.get('seq') else ('/template%d' % len(c['template']) if c.get('template') else ''))
 
 
 def universe(c):
@@ -44,12 +44,21 @@ def count_graphs(c):
     import math
     if c.get('seq'):
         return sum(len(pairs) ** L for L in range(0, min(c['k'], c['nt']) + 1))
+    if c.get('template'):
+        return 2 ** len(c['template'])
     return sum(math.comb(len(atoms), r) for r in range(0, min(c['k'], len(atoms)) + 1))
 
 
 def iter_graphs(c):
     """all atom subsets with <= k atoms, smallest first (so the first counterexample is smallest)"""
     nodes, T, pairs, atoms = universe(c)
+    if c.get('template'):
+        # every subset of a fixed list of timed interactions (a hand-picked neighbourhood: 2**m graphs, complete)
+        idx = [atoms.index(tuple(a)) for a in c['template']]
+        for r in range(0, len(idx) + 1):
+            for sub in itertools.combinations(idx, r):
+                yield tuple(sorted(sub))
+        return
     if c.get('seq'):
         # contact sequences: exactly one timed interaction at each of the first L instants, every choice of pair at every
         # instant (|pairs|**L histories) — deep in time where the subset universes are wide
